@@ -430,6 +430,29 @@ def generate_nested(rng):
                         "%include sub/f2.conf\nk t2\n",
                         "k t2\n%include f1.conf\n%include sub/f2.conf\n"]),
     }
+    if rng.random() < 0.5:
+        # the inner load runs through the SAME ConfigLoader as the outer one
+        # (on resources of its own); the outer text goes on with a further
+        # %include afterwards: definitions keep flowing into and out of the
+        # outer load's fragments, the inner load's stay its own
+        t3, f3, f4 = base + "t3.conf", base + "f3.conf", base + "sub/f4.conf"
+        store = {
+            f2: "k f2-$msg\n" + ("\n".join(nest) + "\n" if deep else ""),
+            f1: "k f1-a\n%include sub/f2.conf\n"
+                + ("" if deep else "\n".join(nest) + "\n")
+                + "%define mid m-$msg\n",
+            f4: "k f4 $msg $mid\n%define tail t-$msg\n",
+            t1: "%define msg hello\nk t1\n"
+                + rng.choice(["%include f1.conf\n",
+                              "<st a>\n%include f1.conf\n</st>\n"])
+                + "%include sub/f4.conf\nk $tail $mid\n",
+            t3: "%define msg bye\n%define mid inner-mid\nk $msg\n"
+                "%include f3.conf\nk $tail\n",
+            f3: "k f3-$msg\n%define tail inner-tail\n",
+        }
+        return {"prop": ID, "kind": "nested-load", "variant": "nested-load",
+                "schema_xml": NEST_SCHEMA, "store": store, "top": t1,
+                "inner_top": t3, "outer_loader": True, "same_loader": True}
     return {"prop": ID, "kind": "nested-load", "variant": "nested-load",
             "schema_xml": NEST_SCHEMA, "store": store, "top": t1,
             "inner_top": rng.choice([t2, t2, t1]),
@@ -465,18 +488,25 @@ def execute_nested(plan):
             lambda: ZConfig.loadConfig(schema, plan["top"]))
         w.end_op("ok" if o0["ok"] else o0["cls"])
         inner = []
+        ld = ZConfig.loader.ConfigLoader(schema)
 
         def hook(value):
             w.nested_hook = None          # (one level of nesting)
             try:
-                inner.append(ops.config_outcome(
-                    lambda: ZConfig.loadConfig(schema, plan["inner_top"])))
+                if plan.get("same_loader"):
+                    inner.append(ops.config_outcome(
+                        lambda: ld.loadURL(plan["inner_top"])))
+                else:
+                    inner.append(ops.config_outcome(
+                        lambda: ZConfig.loadConfig(schema,
+                                                   plan["inner_top"])))
             finally:
                 w.nested_hook = hook
         w.nested_hook = hook
         w.begin_op("outer-with-inner")
+        if plan.get("same_loader"):
+            out["probes"]["load-started-on-the-busy-loader"] = 1
         if plan.get("outer_loader"):
-            ld = ZConfig.loader.ConfigLoader(schema)
             o1 = ops.config_outcome(lambda: ld.loadURL(plan["top"]))
         else:
             o1 = ops.config_outcome(
@@ -511,7 +541,7 @@ def generate(rng, tier, index):
         p_ = generate_pkg(rng)
         if p_ is not None:
             return p_
-    elif r_ < 0.04:
+    elif r_ < 0.05:
         return generate_nested(rng)
     ir, lines = G.gen_pair(rng, {"handlers": False},
                            {"full": rng.choice([0.5, 0.8, 1.0])})
@@ -685,6 +715,7 @@ def generate(rng, tier, index):
     # the top resource need not exist as a file under the URL it is given
     plan["top_in_memory"] = bool(plan["realfs"] and plan["entry"] == "file"
                                  and rng.random() < 0.6)
+    plan["pipe"] = bool(plan["realfs"] and frags and rng.random() < 0.3)
     plan["symlink"] = None
     if plan["realfs"] and frags and rng.random() < 0.4:
         # prefer a fragment that itself includes something
@@ -769,7 +800,38 @@ def execute(plan):
                                 f.write(layout.DECOY_TEXT)
                             decoys["file://" + dp] = layout.DECOY_TEXT
                 out["probes"]["fragment-through-symlink"] = 1
+        pipe_fds = []
         p2 = dict(plan)
+        if plan.get("pipe") and not plan.get("fault") \
+                and plan["variant"] != "include-twice":
+            # one leaf fragment is not a regular file: its name is a
+            # symbolic link to a pipe that holds the text (a generated
+            # fragment, a process substitution): a resource is what reading
+            # it yields, whatever stat() says about its size.  A pipe is
+            # read once, so it is refilled before every load.
+            leaves = sorted(
+                u for u, t in store.items()
+                if u != _to_real(plan["top"], scratch) and u != missing
+                and len(t.encode("utf-8")) < 60000
+                and not any(_INC.match(x) for x in t.split("\n"))
+                and os.path.isfile(u[len("file://"):])
+                and not os.path.islink(u[len("file://"):]))
+            if leaves:
+                lu = leaves[len(leaves) // 2]
+                lpath, ldata = lu[len("file://"):], store[lu].encode("utf-8")
+
+                def refill():
+                    rfd, wfd = os.pipe()
+                    os.write(wfd, ldata)
+                    os.close(wfd)
+                    pipe_fds.append(rfd)
+                    try:
+                        os.unlink(lpath)
+                    except OSError:
+                        pass
+                    os.symlink("/proc/self/fd/%d" % rfd, lpath)
+                p2["_refill"] = refill
+                out["probes"]["fragment-is-a-pipe"] = 1
         p2["missing"] = missing
         if plan.get("torn_url"):
             p2["torn_url"] = _to_real(plan["torn_url"], scratch)
@@ -779,6 +841,11 @@ def execute(plan):
         return _execute(p2, out, store, decoys, _to_real(plan["top"], scratch),
                         (scratch, cwd), report_plan=plan)
     finally:
+        for fd_ in locals().get("pipe_fds") or ():
+            try:
+                os.close(fd_)
+            except OSError:
+                pass
         try:
             os.chdir("/")
         except OSError:
@@ -835,6 +902,8 @@ def _execute(plan, out, store, decoys_in, top, real, report_plan=None):
         w.end_op("ok" if oi["ok"] else oi["cls"])
         w.store = cut_store
         faults = [plan["fault"]] if plan.get("fault") else []
+        refill = plan.get("_refill") or (lambda: None)
+        refill()
         w.begin_op("load-cut", faults)
         entry = plan.get("entry", "url")
         if entry == "path" and not (top.startswith("file:///")
@@ -885,6 +954,7 @@ def _execute(plan, out, store, decoys_in, top, real, report_plan=None):
             # changes the outcome (include stack, caches of resources ...)
             ld = ZConfig.loader.ConfigLoader(schema)
             for k in (1, 2):
+                refill()
                 w.begin_op("load-cut-same-loader-%d" % k)
                 if plan.get("top_in_memory"):
                     ok_ = ops.config_outcome(lambda: ld.loadFile(
@@ -920,6 +990,7 @@ def _execute(plan, out, store, decoys_in, top, real, report_plan=None):
             os.chdir(gone)
             os.rmdir(gone)
             try:
+                refill()
                 w.begin_op("load-cut-cwd-removed")
                 if plan.get("top_in_memory"):
                     og = ops.config_outcome(lambda: ZConfig.loadConfigFile(
